@@ -103,3 +103,11 @@ Contract(U + "reduce_normalized_nonlinear_scales_to_difficulty", props={"C13"},
 Contract(U + "extract_normalized_nonlinear_scales_from_difficulty", props={"C13"},
          cases=[Case(f"D={D}", lambda e, D=D: ((_coefs(e, 3, "de"),), _dn(e, D, True))) for D in (1, 2, 3)],
          spec=lambda nonlinear_difficulties, num_spatial_dims, num_points, maximum_absolute: _nl_extract(nonlinear_difficulties, num_spatial_dims, num_points, maximum_absolute))
+
+
+# C13 is decided by the direct pair checks (contracts/direct_pairs.py) TOGETHER with these: "the conversion functions ...
+# follow the documented formulas" is part of its statement
+from symjnp.contracts import REGISTRY as _REG  # noqa: E402
+for _q, _c in _REG.items():
+    if _c.qualname.startswith(U):
+        _c.also_direct = {"C13"}
